@@ -134,6 +134,16 @@ func (rs *reqState) decodeResponse(resp Response) *clientView {
 		}
 	case "http":
 		body := resp.Body
+		// a client that said it accepts gzip takes the response for what its
+		// Content-Encoding says it is
+		if sp.AcceptGzip && resp.Header.Get("Content-Encoding") == "gzip" {
+			plain, err := wire.Gunzip(body)
+			if err != nil {
+				cv.Err = fmt.Errorf("the response is labelled Content-Encoding: gzip and does not inflate (%v); %d bytes: %s", err, len(body), hexPreview(body, 48))
+				return cv
+			}
+			body = plain
+		}
 		// a client that sent an Accept header decodes by what the response
 		// says it is
 		httpCodec := sp.Codec
